@@ -274,7 +274,7 @@ def build(cfg):
     p.composition = species_list(pc['composition'])
     p.atomic_data = L.data[pc['atomic_data']]
     p.geometry = geometry(pc['geometry'])
-    p.geometry_transform = mat(pc['geometry_transform']) if pc['geometry_transform'] else None
+    p.geometry_transform = mat(pc['geometry_transform']) if pc['geometry_transform'] not in (None, 'none') else None
     p.integrator = NumericalIntegrator(step=pc['integrator_step'])
     p.models = [plasma_model(m) for m in pc['models']]
     bc = cfg.get('beam')
